@@ -346,7 +346,8 @@ impl Display for TypeEntry {
     fn fmt(&self, f: &mut std::fmt::Formatter<'_>) -> std::fmt::Result {
         write!(
             f,
-            "{}",
+            "type {} = {}",
+            self.name,
             self.data_type
                 .as_ref()
                 .map_or_else(|| "_".to_string(), |dt| dt.to_string())
